@@ -115,8 +115,8 @@ impl Decoder for ClientAEADCodec {
                 let header_iv: [u8; NONCE_SIZE] = kdf::kdfn(&self.session.response_body_iv, vec![kdf::SALT_AEAD_RESP_HEADER_PAYLOAD_IV]);
                 let mut header_bytes = src.split_to(header_length + TAG_SIZE);
                 header_cipher.decrypt_in_place(&header_iv.into(), &[], &mut header_bytes).map_err(|e| anyhow!(e))?;
-                if self.session.response_header != header_bytes[0] {
-                    bail!("Unexpected response header: expecting {} but actually {}", self.session.response_header, header_bytes[0]);
+                if header_bytes.first() != Some(&self.session.response_header) {
+                    bail!("Unexpected response header: expecting {} but actually {:?}", self.session.response_header, header_bytes.first());
                 }
                 self.body_decoder = Some(AEADBodyCodec::new_decoder(&self.header, &mut self.session)?);
                 self.decode(src)
